@@ -491,6 +491,11 @@ class List(list, base.Symbolic, pg_typing.CustomTyping):
         root_path=utils.KeyPath(idx, self.sym_path),
     )
     if self._value_spec and flags.is_type_check_enabled():
+      # NOTE: applying a value spec modifies a symbolic container in place (it
+      # binds the spec and fills defaults). A container that belongs to another
+      # location is therefore copied before validation, not after it.
+      if isinstance(value, (dict, list)):
+        value = self._copy_if_attached(idx, value)
       value = self._value_spec.element.apply(
           value,
           allow_partial=allow_partial,
